@@ -126,6 +126,16 @@ def entry_points(root):
         k = {} if limit is None else {'limit': limit}
         return WM.WcMatch(root, text, flags=WM.BRACE, **k).match()
     add('wcmatch.WcMatch', wm)
+
+    def wmx(rec):
+        def run(pats, excl, inline, limit):
+            # the folder-exclusion pattern has a budget of its own, with or without RECURSIVE
+            text = '|'.join(pats + ['!' + e for e in (excl or [])])
+            k = {} if limit is None else {'limit': limit}
+            return WM.WcMatch(root, '*', text, flags=WM.BRACE | (WM.RECURSIVE if rec else 0), **k).match()
+        return run
+    add('wcmatch.WcMatch(exclude_pattern)', wmx(False))
+    add('wcmatch.WcMatch(exclude_pattern,RECURSIVE)', wmx(True))
     return eps
 
 
@@ -179,7 +189,7 @@ def run_case(eps, ename, incs, excs, inline, L, out, armed, explicit=True):
     v, T, U = verdict(incs, excs, effL)
     pats = [t.text for t in incs]
     excl = [t.text for t in excs]
-    if ename == 'wcmatch.WcMatch':
+    if ename.startswith('wcmatch.WcMatch'):
         inline = True
         # one `|`-joined string: braces are expanded over the whole string before it is split, so every brace
         # alternative repeats all the other pieces.  Decided only when at most one piece carries braces.
@@ -250,7 +260,7 @@ def run_case(eps, ename, incs, excs, inline, L, out, armed, explicit=True):
 
 
 def classify(case, armed):
-    if 'K12' in armed and case['entry'] == 'wcmatch.WcMatch' and case['limit'] is None:
+    if 'K12' in armed and case['entry'].startswith('wcmatch.WcMatch') and case['limit'] is None:
         return 'K12'
     if 'K13' in armed and case['excl_patterns'] and not case['inline'] and not case['raised'] and case['verdict'] == 'MUST' \
             and case['entry'] not in ('glob.glob', 'glob.iglob', 'Path.glob', 'Path.rglob'):
@@ -409,7 +419,7 @@ def replay(case):
         o = Outcome()
         run_defaults({'armed': []})
         import inspect
-        d = inspect.signature(WM.WcMatch.__init__).parameters['limit'].default if case['entry'] == 'wcmatch.WcMatch' else 1000
+        d = inspect.signature(WM.WcMatch.__init__).parameters['limit'].default if case['entry'].startswith('wcmatch.WcMatch') else 1000
         return d == 1000, {'default': d}
     pats, excl = case.get('patterns'), case.get('excl_patterns')
     if pats is None:
